@@ -158,3 +158,23 @@ func (x *Exec) mapDelete(st *State, m, k Value) {
 func mapModKeys(T types.Type) []string {
 	return []string{mapPKey(T), "MV:" + typeKey(T.Underlying()) + ":"}
 }
+
+// strOfBytes: string(b) for a []byte b, as an uninterpreted function of the current contents of
+// b's backing array, its offset and its length (so two conversions of unchanged bytes agree,
+// and a contract can name the converted string). Int mode only.
+func (x *Exec) strOfBytes(st *State, v Value) (Term, bool) {
+	c := x.c
+	sl, ok := v.T.Underlying().(*types.Slice)
+	if !ok || c.BV || len(v.L) != 4 {
+		return Term{}, false
+	}
+	b, ok := sl.Elem().Underlying().(*types.Basic)
+	if !ok || b.Kind() != types.Uint8 {
+		return Term{}, false
+	}
+	lf := c.leaves(sl.Elem())[0]
+	arr := x.heapGet(st, "E:"+typeKey(sl.Elem())+":[]", c.heapSort(lf.sort, 1))
+	inner := SArr(c.INT(), lf.sort)
+	f := c.Fun("str.of_bytes", []Sort{inner, c.INT(), c.INT()}, SStr)
+	return f(sel(arr, v.SRef()), v.SOff(), v.SLen()), true
+}
